@@ -546,7 +546,7 @@ func TestC12_StrangeName(t *testing.T) {
 	vk.Rule(rule)
 	rapid.Check(t, func(t *rapid.T) {
 		name := rapid.OneOf(
-			rapid.SampledFrom([]string{"h1.type", "h1.tags", "h1.level", "h1.appenderRef", "h1.appenderRef.ref", "h2.appender-ref", "H1", "h1 ", " h1", "h_1", "sink", "appender.sink", "logger.h1", "logger", "h1.", ".h1", "h1.appenderRef[0]", "h5", "root", ""}),
+			rapid.SampledFrom([]string{"h1.type", "h1.tags", "h1.level", "h1.appenderRef", "h1.appenderRef.ref", "h2.appender-ref", "H1", "h1 ", " h1", "h_1", "sink", "appender.sink", "logger.h1", "logger", "h1.", ".h1", "h1.appenderRef[0]", "h5", "root", "", "_c12_h1", "_c12_h2", "_c12_h3", "_c12_*", "Rec", "Logger"}),
 			rapid.StringMatching(`h[1-4]\.[a-zA-Z]{1,12}`),
 			rapid.StringMatching(`[a-z]{1,6}`),
 		).Draw(t, "name")
@@ -572,6 +572,62 @@ func TestC12_StrangeName(t *testing.T) {
 			t.Fatalf("VERIF-VIOLATION C12: Refresh succeeded although the requested logger name %q is not a configured logger (configured: h1..h4)", name)
 		default:
 			t.Fatalf("VERIF-INCONCLUSIVE C12: child for name %q ended unexpectedly: %v: %.300s", name, err, out)
+		}
+	})
+}
+
+// TestC12_Restart: a logger value used directly may be stopped and started again; in every life raw
+// writes reach the appender verbatim, once, in order, and are all there when Stop returns.
+func TestC12_Restart(t *testing.T) {
+	vk.Rule(rule)
+	rapid.Check(t, func(t *rapid.T) {
+		vk.ResetRecs()
+		async := rapid.Bool().Draw(t, "async")
+		lives := rapid.IntRange(2, 4).Draw(t, "lives")
+		delayUS := rapid.SampledFrom([]int{0, 50, 500}).Draw(t, "appenderDelayUS")
+		rec := &vk.RecAppender{AppenderBase: log.AppenderBase{Name: "rr"}}
+		_ = rec.Start()
+		if delayUS > 0 {
+			vk.SetBehavior("rr", &vk.Behavior{Delay: func(int) time.Duration { return time.Duration(delayUS) * time.Microsecond }})
+		}
+		all := log.LevelRange{MinLevel: log.NoneLevel, MaxLevel: log.MaxLevel}
+		refs := log.AppenderRefs{AppenderRefs: []*log.AppenderRef{{Appender: rec, Level: all}}}
+		var l log.Logger
+		if async {
+			l = &log.AsyncLogger{LoggerBase: log.LoggerBase{Name: "ra", Level: all}, AppenderRefs: refs, BufferSize: 100, BufferFullPolicy: log.BufferFullPolicyBlock}
+		} else {
+			l = &log.SyncLogger{LoggerBase: log.LoggerBase{Name: "rs", Level: all}, AppenderRefs: refs}
+		}
+		vk.Eval()
+		vk.Class("restart")
+		vk.NonTrivial(fmt.Sprintf("restart/%v/%d/%d", async, lives, delayUS))
+		for life := 0; life < lives; life++ {
+			if err := l.Start(); err != nil {
+				t.Fatalf("VERIF-VIOLATION C12: Start #%d of the same logger value failed: %v", life+1, err)
+			}
+			n := rapid.IntRange(0, 40).Draw(t, "writes")
+			var want [][]byte
+			for i := 0; i < n; i++ {
+				b := []byte(fmt.Sprintf("life%d-%d|%s\n", life, i, strings.Repeat("z", (i*37)%300)))
+				want = append(want, b)
+				l.Write(b)
+			}
+			if done, p := vk.Within(60*time.Second, l.Stop); !done || p != nil {
+				vk.HardFail("c12-hang", map[string]any{"life": life}, "C12: Stop #%d of a restarted logger did not return (panic=%v)", life+1, p)
+			}
+			var got [][]byte
+			for _, it := range rec.Items() {
+				got = append(got, it.Bytes)
+			}
+			if len(got) != len(want) {
+				t.Fatalf("VERIF-VIOLATION C12: life %d of a restarted logger (async=%v): %d raw writes were issued, the appender holds %d when Stop returns", life+1, async, len(want), len(got))
+			}
+			for i := range want {
+				if !bytes.Equal(got[i], want[i]) {
+					t.Fatalf("VERIF-VIOLATION C12: life %d of a restarted logger: write #%d arrived as %.60q, written %.60q", life+1, i, got[i], want[i])
+				}
+			}
+			rec.Clear()
 		}
 	})
 }
